@@ -17,6 +17,7 @@ func init() {
 	vHarnesses["VerifH_C05_stream"] = VerifH_C05_stream
 	vHarnesses["VerifH_C05_bulk"] = VerifH_C05_bulk
 	vHarnesses["VerifH_C05_basic"] = VerifH_C05_basic
+	vHarnesses["VerifH_C05_sequence"] = VerifH_C05_sequence
 }
 
 // ---- stubs at the Authenticate / Access interfaces ----
@@ -306,7 +307,12 @@ func VerifH_C05_bulk() {
 var c05Decoded string
 var c05DecodeFails bool
 
+var c05Tokens = map[string]string{}
+
 func c05DecodeString(enc *base64.Encoding, s string) ([]byte, error) {
+	if p, ok := c05Tokens[s]; ok {
+		return []byte(p), nil
+	}
 	if c05DecodeFails || s != "TOKEN" {
 		return nil, errors.New("illegal base64 data")
 	}
@@ -356,4 +362,98 @@ func c05Header(payload string, broken bool) string {
 		return "Basic !!!not-base64!!!"
 	}
 	return "Basic " + base64.StdEncoding.EncodeToString([]byte(payload))
+}
+
+// c05HeaderN: the Authorization header of the i-th request of a sequence.
+func c05HeaderN(i int, payload string) string {
+	if vSymbolic() {
+		tok := "TOKEN" + string(rune('0'+i))
+		c05Tokens[tok] = payload
+		return "Basic " + tok
+	}
+	return "Basic " + base64.StdEncoding.EncodeToString([]byte(payload))
+}
+
+type c05SeqStream struct {
+	c05Stream
+	ctx context.Context
+}
+
+func (s *c05SeqStream) Context() context.Context { return s.ctx }
+
+// VerifH_C05_sequence: a sequence of requests through ONE pair of interceptors
+// (as the server keeps them) with the real authenticators: what a request is
+// allowed to do depends on the credentials it carries itself, never on those of
+// an earlier request.
+func VerifH_C05_sequence() {
+	N := vParam("CALLS", 2)
+	var auth Authenticate
+	proxy := vChoice("authenticator", 2) == 1
+	if proxy {
+		auth = ProxyAuth{Field: "x-user"}
+	} else {
+		auth = BasicAuth{{User: "al", Password: "pw"}, {User: "bo", Password: "x"}}
+	}
+	access := &c05Access{}
+	unary := unaryAuthInterceptor(auth, access)
+	stream := streamAuthInterceptor(auth, access)
+	for i := 0; i < N; i++ {
+		nm := "call" + string(rune('0'+i))
+		md := metadata.MD{}
+		wantUser, wantOK := "", false
+		switch vChoice(nm+".credentials", 4) {
+		case 0:
+			wantUser, wantOK = "al", true
+		case 1:
+			wantUser, wantOK = "bo", true
+		case 2: // a wrong password / an empty proxy field
+			if proxy {
+				md["x-user"] = []string{}
+			} else {
+				pw := vNondetStringN(nm+".pw", 1)
+				vAssume(pw != "x")
+				md["authorization"] = []string{c05HeaderN(i, "bo:"+pw)}
+			}
+		default: // no credentials at all
+		}
+		if wantOK {
+			if proxy {
+				md["x-user"] = []string{wantUser}
+			} else if wantUser == "al" {
+				md["authorization"] = []string{c05HeaderN(i, "al:pw")}
+			} else {
+				md["authorization"] = []string{c05HeaderN(i, "bo:x")}
+			}
+		}
+		ctx := metadata.NewIncomingContext(context.Background(), md)
+		g := vSymID(nm+".graph", 'g', 'h')
+		before := len(access.calls)
+		called := false
+		var err error
+		if vChoice(nm+".kind", 2) == 0 {
+			_, err = unary(ctx, &gripql.GraphID{Graph: g}, &grpc.UnaryServerInfo{FullMethod: "/gripql.Query/GetTimestamp"},
+				func(ctx context.Context, r interface{}) (interface{}, error) { called = true; return "ok", nil })
+		} else {
+			ss := &c05SeqStream{c05Stream: c05Stream{query: &gripql.GraphQuery{Graph: g}}, ctx: ctx}
+			err = stream(nil, ss, &grpc.StreamServerInfo{FullMethod: "/gripql.Query/Traversal", IsServerStream: true},
+				func(srv interface{}, st grpc.ServerStream) error { called = true; return nil })
+		}
+		vReach("c05.sequence.called")
+		if !wantOK {
+			vAssert("C05.sequence.no-credentials-no-access", !called && c05Code(err) == "Unauthenticated" && len(access.calls) == before)
+			continue
+		}
+		mediated := false
+		own := true
+		for _, c := range access.calls[before:] {
+			if c.user != wantUser || c.graph != g {
+				own = false
+			}
+			if c.allowed {
+				mediated = true
+			}
+		}
+		vAssert("C05.sequence.policy-asked-for-own-user", own && len(access.calls) > before)
+		vAssert("C05.sequence.handler-implies-mediated", !called || mediated)
+	}
 }
